@@ -219,6 +219,12 @@ class Affine:
             if isinstance(shp, ast.Tuple) and len(shp.elts) == 2 and isinstance(const_value(shp.elts[1]), int):
                 return s.rows([s.Z] * const_value(shp.elts[1]))
             return s.Z
+        if name == "numpy.tile" and args:
+            v = arr(args[0])
+            reps = node.args[1] if len(node.args) > 1 else None
+            if v.kind == "vec" and isinstance(reps, ast.Tuple) and len(reps.elts) == 2 and const_value(reps.elts[1]) == 1:
+                return s.rows(v.comps)          # the vector repeated as rows: each column keeps its component's weight
+            return v if v.kind in ("w", "any") else s.top("tile")
         if name in ("len", "numpy.ones", "numpy.arange", "range", "numpy.shape", "numpy.size"): return s.U
         fa = [arr(a) for a in args]; fk = {k: arr(v) for k, v in kwargs.items()}
         if name in ("numpy.sum", "numpy.cumsum", "numpy.mean", "numpy.diff", "numpy.flipud", "numpy.real",
